@@ -64,6 +64,10 @@ func (o *Obligation) smtText(withModel bool) string {
 	}
 	var body strings.Builder
 	for _, t := range o.PC {
+		if o.Cover && (strings.Contains(t.S, "(forall ") || strings.Contains(t.S, "(exists ")) {
+			// satisfiability covers are decided on the quantifier-free part of the path condition
+			continue
+		}
 		body.WriteString("(assert " + t.S + ")\n")
 	}
 	if o.Cover {
@@ -130,7 +134,13 @@ func (o *Obligation) smtText(withModel bool) string {
 		}
 	}
 	all += litFacts.String()
+	builtin := ""
+	if strings.Contains(all, "(blen ") && u.d.has("bytesof") {
+		builtin = "(assert (forall ((r!b (Array Int Int)) (o!b Int) (l!b Int)) (=> (>= l!b 0) (= (blen (bytesof r!b o!b l!b)) l!b))))\n"
+		all += builtin
+	}
 	b.WriteString(u.d.emit(all))
+	b.WriteString(builtin)
 	b.WriteString(strings.Join(axs, ""))
 	b.WriteString(litFacts.String())
 	b.WriteString(text)
